@@ -99,6 +99,9 @@ func c02KW[E algebra.PrimeGroupElement[E, S], S algebra.PrimeFieldElement[S]](en
 	for _, A := range subsetsOf(pol.IDs) {
 		an := setName(A)
 		q := as.IsQualified(A...)
+		if pol.Spec != nil {
+			env.Check("C02.a/the access structure decides like the description it was built from", q == pol.Spec(A), fmt.Sprintf("IsQualified(%s)=%v, the description says %v", an, q, pol.Spec(A)))
+		}
 		acc := m.Accepts(A...)
 		can := scheme.CanReconstruct(A...)
 		// A shareholder contained in every maximal unqualified set owns no MSP row; the library then
